@@ -89,6 +89,9 @@ fn main() {
     let time_cap: f64 = arg(&args, "--time-cap").map(|s| s.parse().unwrap()).unwrap_or(1e9);
     let only = arg(&args, "--only");
     let scale: f64 = arg(&args, "--scale").map(|s| s.parse().unwrap()).unwrap_or(1.0);
+    if matches!(build.as_str(), "dbg" | "rel" | "odd") {
+        vp_harness::exec::threadenv::MEASURE.store(true, std::sync::atomic::Ordering::Relaxed);
+    }
 
     let prop = props::find(&prop_id).expect("unknown property");
     if tier == Tier::Miri {
